@@ -44,7 +44,14 @@ func vfTemplateStub() *template.Template { return &template.Template{} }
 
 const vfMaxMsgs = 6
 
-func VerifC19Chat(nMsgs int, withProjector int) {
+func VerifC19Chat(nMsgs int, withProjector int) { vfC19Chat(nMsgs, withProjector, false) }
+
+// VerifC19ChatWeighted: the token count is a function of the rendered text - every message has a
+// solver-chosen weight and a text costs the sum of the weights of the messages printed in it, as
+// often as they are printed - so that what is counted must be what is finally rendered.
+func VerifC19ChatWeighted(nMsgs int, withProjector int) { vfC19Chat(nMsgs, withProjector, true) }
+
+func vfC19Chat(nMsgs int, withProjector int, weighted bool) {
 	vfRendered = nil
 	ids := [vfMaxMsgs]string{"#A", "#B", "#C", "#D", "#E", "#F"}
 	msgs := make([]api.Message, nMsgs)
@@ -76,8 +83,24 @@ func VerifC19Chat(nMsgs int, withProjector int) {
 	}
 	calls := 0
 	buf := make([]int, 64)
+	weights := make([]int, nMsgs)
+	if weighted {
+		for i := range weights {
+			weights[i] = verifNondetInt("weight")
+			verifAssume(weights[i] >= 0 && weights[i] <= 8)
+		}
+	}
 	tokenize := func(ctx context.Context, s string) ([]int, error) {
 		k := tokLens[calls]
+		if weighted {
+			k = 0
+			for i := 0; i < nMsgs; i++ {
+				for c := strings.Count(s, ids[i]); c > 0; c-- {
+					k += weights[i]
+				}
+			}
+			tokLens[calls] = k
+		}
 		calls++
 		return buf[:k], nil
 	}
@@ -108,7 +131,17 @@ func VerifC19Chat(nMsgs int, withProjector int) {
 		if withProjector != 0 {
 			imgTokens += 768 * nImg[i]
 		}
-		if tokLens[last-1-i]+imgTokens > numCtx {
+		cost := tokLens[last-1-i]
+		if weighted {
+			// what the specification counts: the system messages before i and the run from i, once each
+			cost = 0
+			for j := 0; j < nMsgs; j++ {
+				if j >= i || isSys[j] {
+					cost += weights[j]
+				}
+			}
+		}
+		if cost+imgTokens > numCtx {
 			break
 		}
 		n = i
